@@ -8,7 +8,8 @@ use std::time::{Duration, Instant};
 pub type Test<'a> = &'a mut dyn FnMut(&Plan) -> Option<Violation>;
 
 fn same(v: &Option<Violation>, class: &str) -> bool {
-    v.as_ref().map_or(false, |v| v.class == class)
+    let memsafe = |c: &str| matches!(c, "memory-fault" | "canary" | "register-clobber");
+    v.as_ref().map_or(false, |v| v.class == class || (memsafe(&v.class) && memsafe(class)))
 }
 
 fn len_candidates(n: usize) -> Vec<usize> {
@@ -73,7 +74,7 @@ pub fn shrink(plan: &Plan, recorded: &[u8], class: &str, test: Test, budget: Dur
     cand.schedule = Schedule::Explicit { choices: recorded.to_vec() };
     let mut best_v = test(&best).expect("violation must reproduce before shrinking");
     if let Some(v) = test(&cand) {
-        if v.class == class {
+        if same(&Some(v.clone()), class) {
             best = cand;
             best_v = v;
         }
